@@ -262,6 +262,49 @@ class _SimTqdm:
         return False
 
 
+# ---------------------------------------------------------------------------------- object identity
+class SimId:
+    """Stand-in for the builtin id() as seen by molli.pipeline modules.  Which address a new object gets is up to the
+    allocator - a source of nondeterminism like any other.  Here identities are small integers handed out in creation
+    order, and the identity of an object that died is given to the NEXT object that asks: address reuse happens always
+    and repeatably, so code that remembers things per id() of objects that may be gone is exposed deterministically."""
+
+    BASE = 0x7F0000000000
+
+    def __init__(self):
+        import heapq
+
+        self._hq = heapq
+        self.free = []
+        self.next = 0
+        self.live = {}
+
+    def _release(self, key):
+        ent = self.live.pop(key, None)
+        if ent is not None:
+            self._hq.heappush(self.free, ent[1])
+
+    def __call__(self, obj):
+        import builtins
+        import weakref
+
+        key = builtins.id(obj)
+        ent = self.live.get(key)
+        if ent is not None and ent[0]() is obj:
+            return self.BASE + 16 * ent[1]
+        try:
+            ref = weakref.ref(obj, lambda _r, key=key: self._release(key))
+        except TypeError:
+            return key
+        if self.free:
+            n = self._hq.heappop(self.free)
+        else:
+            n = self.next
+            self.next += 1
+        self.live[key] = (ref, n)
+        return self.BASE + 16 * n
+
+
 # ---------------------------------------------------------------------------------- seam installation
 @contextlib.contextmanager
 def pipeline_seams(fake: FakeExec, spawn: SimSpawn | None = None, executor: SimExecutorFactory | None = None,
@@ -269,7 +312,10 @@ def pipeline_seams(fake: FakeExec, spawn: SimSpawn | None = None, executor: SimE
     import molli.pipeline.job as job
     import molli.pipeline.runner as runner
 
-    patches = [(runner, "run", fake), (runner, "exit", _runner_exit)]
+    import molli.pipeline.driver as driver
+
+    sim_id = SimId()
+    patches = [(runner, "run", fake), (runner, "exit", _runner_exit), (job, "id", sim_id), (driver, "id", sim_id)]
     if spawn is not None:
         patches.append((job, "run", spawn))
     if executor is not None:
